@@ -142,7 +142,7 @@ Proof.
            { intros E. specialize (Hm1 E). cbn in Hm1. lia. }
            split; [exact Hms|]. split; [symmetry; exact Hkh|symmetry; exact Hkl].
         -- eexists (Leaf _ a b), false, false. split; [reflexivity|]. split; [split; [discriminate|tauto]|].
-           split; [cbn; symmetry; apply m_remove_notin; exact Hr|]. split; [auto|]. split; [discriminate|auto].
+           split; [cbn [entries]; symmetry; apply m_remove_notin; exact Hr|]. split; [auto|]. split; [discriminate|auto].
 Qed.
 
 Lemma good_sub n n' k : good n -> wf n' -> entries n' = m_remove k (entries n) ->
@@ -186,7 +186,7 @@ Proof.
            | KKept l' => KKept (c :: l')
            | KDropped l' => KDropped (c :: l')
            end).
-  rewrite entries_kids_cons.
+  unfold kres_post. rewrite (entries_kids_cons c r). fold (kres_post k r (remove_kids k r)) in IH.
   destruct (within c k) eqn:Hw.
   - assert (Hkc : kle k (nmax c)).
     { unfold within in Hw. destruct (within_lim_spec (nmin c) (nmax c) k) as [[_ H2]|]; [exact H2|discriminate]. }
